@@ -64,13 +64,15 @@ Definition spec_payload (ps : list packet) : bytes :=
 Definition net_order (k : nat) (n : N) : bytes :=
   map (fun i => (n / 256 ^ N.of_nat (k - 1 - i)) mod 256) (seq 0 k).
 
+Definition spec_header (n : N) (binary : bool) : bytes :=
+  let bit := if binary then 128 else 0 in
+  if n <? 126 then [bit + n]
+  else if n <? 65536 then (bit + 126) :: net_order 2 n
+  else (bit + 127) :: net_order 8 n.
+
 Definition spec_frame (p : packet) : bytes :=
   let body := spec_packet true p in
-  let n := nlen body in
-  let bit := if p_binary p then 128 else 0 in
-  (if n <? 126 then [bit + n]
-   else if n <? 65536 then (bit + 126) :: net_order 2 n
-   else (bit + 127) :: net_order 8 n) ++ body.
+  spec_header (nlen body) (p_binary p) ++ body.
 
 (** ** The model prints the specification *)
 Definition char_ok (v : N) : bool := b64_char v =? rfc_char v.
@@ -151,7 +153,7 @@ Proof.
   intros p Hok. unfold wt_send, spec_frame. rewrite <- packet_is_v4 by assumption.
   assert (nlen (encode_packet true p) = Z.to_N (encoded_len true p)) as Hn.
   { rewrite <- CodecProofs.encoded_len_exact. unfold zlen, nlen. lia. }
-  rewrite Hn. set (n := Z.to_N (encoded_len true p)). unfold wt_header. f_equal.
+  rewrite Hn. set (n := Z.to_N (encoded_len true p)). unfold wt_header, spec_header. f_equal.
   destruct (n <? 126) eqn:E1; [f_equal; lia|]. destruct (n <? 65536) eqn:E2.
   - rewrite net_order_2 by lia. f_equal. lia.
   - rewrite net_order_8. f_equal. lia.
